@@ -74,7 +74,7 @@ TAIL = """
 Definition run (c : request * analysis * otext * oyaml) : list string :=
   let '(q, a, t, y) := c in (if wf_analysis a then [] else ["wf"]) ++ report_agrees q a t y.
 Definition out : list string :=
-  concat (map (fun p => match run (snd p) with [] => [] | l => [nat_string (fst p) ++ ":" ++ String.concat "," l] end)
+  List.concat (map (fun p => match run (snd p) with [] => [] | l => [nat_string (fst p) ++ ":" ++ String.concat "," l] end)
               (combine (seq 0 (List.length cases)) cases)).
 Eval vm_compute in (String.concat ";" out ++ "|" ++ nat_string (List.length cases)).
 """
